@@ -253,7 +253,7 @@ def run(chk):
             k = [describe(prog, h, a) for a in t["args"][1:3]]
             uri = fidx(prog, "humphrey::http::request::Request", "uri")
             chk.ob("R5.lookup_key", h.path, "store key is (request.uri, host) — the key cache_check looks up", desc_contains(k[0], lambda y: y[0] == "field" and y[2] == uri) and k[1] == ("param", 4, "host"), f"{[panics.short_desc(x) for x in k]}")
-
+    _typing_witness(chk)
 
 def _fields(d, out=None):
     out = [] if out is None else out
@@ -270,3 +270,13 @@ def _fields(d, out=None):
 
 def rv_index(prog, name):
     return fidx(prog, CI, name)
+
+
+def _typing_witness(chk):
+    """thorough tier: compile-fail witness with compiling twin (rustdoc `compile_fail,E0xxx` on nightly)."""
+    if chk.tier != "thorough":
+        return
+    from .. import witness
+    ok, res = witness.run("C16")
+    chk.extra["typing_witness"] = res
+    chk.ob("R6.typing_witness", "witness/typing", "Cache::set does not type-check through a read guard (compile_fail E0596 + compiling twin)", ok, "Cache::set no longer needs exclusive access: concurrent stores are not excluded by the type: " + str(res)[:300])
